@@ -1,6 +1,6 @@
 SPECIFICATION Spec
 CONSTANTS
-  MaxNf = 8
+  MaxNf = 2
   Roles <- RolesAll
   PlaceholderTypedAsCookie = FALSE
   UidChecked = TRUE
@@ -8,7 +8,7 @@ CONSTANTS
   Hardened = TRUE
   StopAtAuth = TRUE
   CtLenExact = TRUE
-  StoreAfterUid = TRUE
+  StoreAfterUid = FALSE
   LenChoices <- LenChoicesGen
-  TruncMax = 4
-INVARIANTS Emit
+  TruncMax = 2
+INVARIANTS RejectedInert
